@@ -263,11 +263,15 @@ def GC_render_contract(c, role, lines, ind):
     return render_checker.render_contract(c, role, lines, ind)
 
 
+# C15 renders the histories with `enabled=True` spelled out and runs them under -O / -OO
+EXPLICIT_ENABLED = False
+
+
 def py_deco(d, lines, ind):
     import render_checker
     if d[0] == "foreign":
         return ("@W.foreign_obj(%d)" if len(d) > 2 else "@W.foreign(%d)") % d[1]
-    en = "" if d[2] else ", enabled=False"
+    en = (", enabled=True" if EXPLICIT_ENABLED else "") if d[2] else ", enabled=False"
     if d[0] == "require":
         return "@icontract.require(%s%s)" % (render_checker.render_contract(d[1], "pre", lines, ind), en)
     if d[0] == "ensure":
@@ -369,7 +373,7 @@ def py_op(i, op, class_names):
     inv_lines = []
     for d in op["invs"]:
         c = d["contract"]
-        en = "" if d["enabled"] else ", enabled=False"
+        en = (", enabled=True" if EXPLICIT_ENABLED else "") if d["enabled"] else ", enabled=False"
         co = ", check_on=icontract.InvariantCheckEvent.%s" % d["check_on"]
         if d["invalid"] == "invariant_with_params":
             # a condition that takes anything beyond `self`, variadic parameters included
